@@ -1444,11 +1444,11 @@ class FuncEval(ValueFunc):
         s = args.getString("s").value
         try:
             node = parse_script(s, pos.filename)
-            return node.evaluate(environment)
         except Exception:
             raise CklRuntimeError(
                 ValueString("ERROR"), "Cannot evaluate expression", pos
             )
+        return node.evaluate(environment)
 
 
 class FuncExecute(ValueFunc):
